@@ -126,4 +126,236 @@ theorem decList_enc (xs : List WVal) : ∀ (f : Nat) (et : TType) (r : Bytes), W
     simp only [encList, List.append_assoc, List.length_cons, decListWith, h1, h3]
 end
 
+theorem readN_append (n : Nat) (bs y : Bytes) (x : Nat) (r : Bytes) (h : readN n bs = some (x, r)) :
+    readN n (bs ++ y) = some (x, r ++ y) := by
+  unfold readN at h ⊢
+  split at h
+  · cases h
+  · rename_i hl
+    simp only [Option.some.injEq, Prod.mk.injEq] at h
+    have hl' : ¬ (bs ++ y).length < n := by simp; omega
+    have hn : n ≤ bs.length := by omega
+    simp only [hl', if_false, Option.some.injEq, Prod.mk.injEq]
+    rw [List.take_append_of_le_length hn, List.drop_append_of_le_length hn]
+    exact ⟨h.1, by rw [h.2]⟩
+
+theorem readBytes_app (n : Nat) (bs y b r : Bytes) (h : readBytes n bs = some (b, r)) :
+    readBytes n (bs ++ y) = some (b, r ++ y) := by
+  unfold readBytes at h ⊢
+  split at h
+  · cases h
+  · rename_i hl
+    simp only [Option.some.injEq, Prod.mk.injEq] at h
+    have hl' : ¬ (bs ++ y).length < n := by simp; omega
+    have hn : n ≤ bs.length := by omega
+    simp only [hl', if_false, Option.some.injEq, Prod.mk.injEq]
+    rw [List.take_append_of_le_length hn, List.drop_append_of_le_length hn]
+    exact ⟨h.1, by rw [h.2]⟩
+
+/-- a decoder that is insensitive to appended input -/
+def AppOK {α} (d : Bytes → Option (α × Bytes)) : Prop :=
+  ∀ bs x r y, d bs = some (x, r) → d (bs ++ y) = some (x, r ++ y)
+
+theorem decListWith_append (d : Bytes → Option (WVal × Bytes)) (hd : AppOK d) :
+    ∀ n, AppOK (decListWith d n) := by
+  intro n
+  induction n with
+  | zero => intro bs x r y h; simp [decListWith] at h ⊢; exact ⟨h.1, by rw [h.2]⟩
+  | succ n ih =>
+    intro bs x r y h
+    simp only [decListWith] at h ⊢
+    cases h1 : d bs with
+    | none => simp [h1] at h
+    | some p =>
+      obtain ⟨a, r1⟩ := p
+      simp only [h1] at h
+      rw [hd bs a r1 y h1]
+      cases h2 : decListWith d n r1 with
+      | none => simp [h2] at h
+      | some q =>
+        obtain ⟨xs, r2⟩ := q
+        simp only [h2, Option.some.injEq, Prod.mk.injEq] at h
+        simp only [ih r1 xs r2 y h2, Option.some.injEq, Prod.mk.injEq]
+        exact ⟨h.1, by rw [h.2]⟩
+
+theorem decPairsWith_append (dk dv : Bytes → Option (WVal × Bytes)) (hk : AppOK dk) (hv : AppOK dv) :
+    ∀ n, AppOK (decPairsWith dk dv n) := by
+  intro n
+  induction n with
+  | zero => intro bs x r y h; simp [decPairsWith] at h ⊢; exact ⟨h.1, by rw [h.2]⟩
+  | succ n ih =>
+    intro bs x r y h
+    simp only [decPairsWith] at h ⊢
+    cases h1 : dk bs with
+    | none => simp [h1] at h
+    | some p =>
+      obtain ⟨a, r1⟩ := p
+      simp only [h1] at h
+      rw [hk bs a r1 y h1]
+      cases h1' : dv r1 with
+      | none => simp [h1'] at h
+      | some p' =>
+        obtain ⟨b, r1'⟩ := p'
+        simp only [h1'] at h
+        simp only [hv r1 b r1' y h1']
+        cases h2 : decPairsWith dk dv n r1' with
+        | none => simp [h2] at h
+        | some q =>
+          obtain ⟨xs, r2⟩ := q
+          simp only [h2, Option.some.injEq, Prod.mk.injEq] at h
+          simp only [ih r1' xs r2 y h2, Option.some.injEq, Prod.mk.injEq]
+          exact ⟨h.1, by rw [h.2]⟩
+
+theorem decFieldsWith_append (d : TType → Bytes → Option (WVal × Bytes)) (hd : ∀ t, AppOK (d t)) :
+    ∀ g bs fs r y g', decFieldsWith d g bs = some (fs, r) → g ≤ g' →
+      decFieldsWith d g' (bs ++ y) = some (fs, r ++ y) := by
+  intro g
+  induction g with
+  | zero => intro bs fs r y g' h; simp [decFieldsWith] at h
+  | succ g ih =>
+    intro bs fs r y g' h hg
+    cases g' with
+    | zero => omega
+    | succ g' =>
+    cases bs with
+    | nil => simp [decFieldsWith] at h
+    | cons c bs =>
+      simp only [decFieldsWith, List.cons_append] at h ⊢
+      split at h
+      · rename_i hc
+        simp only [Option.some.injEq, Prod.mk.injEq] at h
+        simp only [hc, if_true, Option.some.injEq, Prod.mk.injEq]
+        exact ⟨h.1, by rw [h.2]⟩
+      · rename_i hc
+        simp only [hc, if_false]
+        cases ht : TType.ofCode c with
+        | none => simp [ht] at h
+        | some t =>
+          simp only [ht] at h ⊢
+          cases h1 : readN 2 bs with
+          | none => simp [h1] at h
+          | some p =>
+            obtain ⟨id, r1⟩ := p
+            simp only [h1] at h
+            simp only [readN_append 2 bs y id r1 h1]
+            cases h2 : d t r1 with
+            | none => simp [h2] at h
+            | some q =>
+              obtain ⟨v, r2⟩ := q
+              simp only [h2] at h
+              simp only [hd t r1 v r2 y h2]
+              cases h3 : decFieldsWith d g r2 with
+              | none => simp [h3] at h
+              | some q' =>
+                obtain ⟨fs', r3⟩ := q'
+                simp only [h3, Option.some.injEq, Prod.mk.injEq] at h
+                simp only [ih r2 fs' r3 y g' h3 (by omega), Option.some.injEq, Prod.mk.injEq]
+                exact ⟨h.1, by rw [h.2]⟩
+
+theorem decW_append : ∀ (f : Nat) (t : TType), AppOK (decW f t) := by
+  intro f
+  induction f with
+  | zero => intro t bs x r y h; simp [decW] at h
+  | succ f ih =>
+    intro t bs x r y h
+    cases t with
+    | bool | i8 | dbl | i16 | i32 | i64 =>
+      simp only [decW] at h ⊢
+      split at h
+      · cases h
+      · rename_i x' r' h1
+        simp only [Option.some.injEq, Prod.mk.injEq] at h
+        simp only [readN_append _ bs y x' r' h1, Option.some.injEq, Prod.mk.injEq]
+        exact ⟨h.1, by rw [h.2]⟩
+    | str =>
+      simp only [decW] at h ⊢
+      cases h1 : readN 4 bs with
+      | none => simp [h1] at h
+      | some p =>
+        obtain ⟨n, r1⟩ := p
+        simp only [h1] at h
+        simp only [readN_append 4 bs y n r1 h1]
+        split at h
+        · cases h
+        · rename_i hn
+          simp only [hn, if_false]
+          cases h2 : readBytes n r1 with
+          | none => simp [h2] at h
+          | some q =>
+            obtain ⟨b, r2⟩ := q
+            simp only [h2, Option.some.injEq, Prod.mk.injEq] at h
+            simp only [readBytes_app n r1 y b r2 h2, Option.some.injEq, Prod.mk.injEq]
+            exact ⟨h.1, by rw [h.2]⟩
+    | struct =>
+      simp only [decW] at h ⊢
+      cases h1 : decFieldsWith (decW f) (bs.length + 1) bs with
+      | none => simp [h1] at h
+      | some p =>
+        obtain ⟨fs, r1⟩ := p
+        simp only [h1, Option.some.injEq, Prod.mk.injEq] at h
+        have := decFieldsWith_append (decW f) ih (bs.length + 1) bs fs r1 y ((bs ++ y).length + 1) h1 (by simp)
+        simp only [this, Option.some.injEq, Prod.mk.injEq]
+        exact ⟨h.1, by rw [h.2]⟩
+    | map =>
+      simp only [decW] at h ⊢
+      cases bs with
+      | nil => simp at h
+      | cons kc bs =>
+      cases bs with
+      | nil => simp at h
+      | cons vc bs =>
+      simp only [List.cons_append] at h ⊢
+      cases hk : TType.ofCode kc with
+      | none => simp [hk] at h
+      | some kt =>
+      cases hv : TType.ofCode vc with
+      | none => simp [hk, hv] at h
+      | some vt =>
+      simp only [hk, hv] at h ⊢
+      cases h1 : readN 4 bs with
+      | none => simp [h1] at h
+      | some p =>
+        obtain ⟨n, r1⟩ := p
+        simp only [h1] at h
+        simp only [readN_append 4 bs y n r1 h1]
+        split at h
+        · cases h
+        · rename_i hn
+          simp only [hn, if_false]
+          cases h2 : decPairsWith (decW f kt) (decW f vt) n r1 with
+          | none => simp [h2] at h
+          | some q =>
+            obtain ⟨kvs, r2⟩ := q
+            simp only [h2, Option.some.injEq, Prod.mk.injEq] at h
+            simp only [decPairsWith_append _ _ (ih kt) (ih vt) n r1 kvs r2 y h2, Option.some.injEq, Prod.mk.injEq]
+            exact ⟨h.1, by rw [h.2]⟩
+    | set | list =>
+      simp only [decW] at h ⊢
+      cases bs with
+      | nil => simp at h
+      | cons ec bs =>
+      simp only [List.cons_append] at h ⊢
+      cases he : TType.ofCode ec with
+      | none => simp [he] at h
+      | some et =>
+      simp only [he] at h ⊢
+      cases h1 : readN 4 bs with
+      | none => simp [h1] at h
+      | some p =>
+        obtain ⟨n, r1⟩ := p
+        simp only [h1] at h
+        simp only [readN_append 4 bs y n r1 h1]
+        split at h
+        · cases h
+        · rename_i hn
+          simp only [hn, if_false]
+          cases h2 : decListWith (decW f et) n r1 with
+          | none => simp [h2] at h
+          | some q =>
+            obtain ⟨xs, r2⟩ := q
+            simp only [h2, Option.some.injEq, Prod.mk.injEq] at h
+            simp only [decListWith_append _ (ih et) n r1 xs r2 y h2, Option.some.injEq, Prod.mk.injEq]
+            exact ⟨h.1, by rw [h.2]⟩
+
+
 end Wire
